@@ -3,7 +3,7 @@
    law is used, so they hold verbatim for Z, Q, R and for IEEE floats with a fixed summation order);
    the centring lemmas hold for every Op satisfying ring_theory. *)
 From Coq Require Import List Arith ZArith Ring Permutation Reals Lia.
-From TLV Require Import Base.Shape Base.PyList Base.Tensor Base.Ops Model.Base Model.Regress Proofs.RegressProofs Proofs.RegressProofsPlsr Proofs.RegressProofsR Proofs.RegressProofsLink Proofs.RegressProofsBlock Model.RegressObj Proofs.RegressProofsObj.
+From TLV Require Import Base.Shape Base.PyList Base.Tensor Base.Ops Model.Base Model.Regress Proofs.RegressProofs Proofs.RegressProofsPlsr Proofs.RegressProofsR Proofs.RegressProofsLink Proofs.RegressProofsBlock Model.RegressObj Proofs.RegressProofsObj Proofs.RegressProofsObjR.
 From TLV Require Model.Factorized Proofs.FactorizedProofs5.
 Import ListNotations.
 
@@ -364,6 +364,13 @@ Theorem C19_reg_fit_trace : forall (F P : Type) (sweep : P -> P) (rebuild : P ->
 Proof. exact @reg_fit_trace. Qed.
 Print Assumptions C19_reg_fit_trace.
 
+Corollary C19_reg_fit_last_norm : forall (F P : Type) (sweep : P -> P) (rebuild : P -> tensor F) (nrm : tensor F -> F)
+  (small : F -> F -> bool) (w0 : P) (n_iter : nat) (r : reg_full) (d : F),
+  reg_fit_full sweep rebuild nrm small n_iter w0 = Ok r ->
+  last (rf_norm_W r) d = nrm (r_weight_tensor (rf_stored r)) /\ length (rf_norm_W r) = rf_n_iterations r.
+Proof. exact @reg_fit_last_norm. Qed.
+Print Assumptions C19_reg_fit_last_norm.
+
 (* reg_fit_full stores exactly what reg_fit (the subject of the theorems above) stores *)
 Theorem C19_reg_fit_full_stored : forall (F P : Type) (sweep : P -> P) (rebuild : P -> tensor F) (nrm : tensor F -> F)
   (small : F -> F -> bool) (w0 : P) (n_iter : nat),
@@ -514,6 +521,54 @@ Theorem C19_pobj_predict_uses_current : forall (F : Type) (Op : fops F) (sqrtF :
   end.
 Proof. exact @pobj_predict_uses_current. Qed.
 Print Assumptions C19_pobj_predict_uses_current.
+
+(* over R, the unit-norm clause for EVERY state a CP_PLSR object can reach from a fresh one (fits, rejected fits, fits raising in
+   their loop, refits, set_params, predict, transform in any order): every exposed loading vector has squared norm 1 -- or 0: the zero
+   factors left by a fit that raised, or the normalisation of a zero vector (NaN in the implementation) *)
+Theorem C19_pobj_reachable_unit_norm : forall (init : tensor R -> list (tensor R)) (ne_solve : list (list R) -> list R -> list R)
+  (cs : list pcall) (p0 : pprm) (a : pattrs),
+  po_attrs (fst (prun Rops sqrt init ne_solve (mkPobj p0 None) cs)) = Some a ->
+  forall c : comp, In c (comps (a_fit a)) ->
+    (forall l : tensor R, In l (c_load c) -> sumsq Rops l = 1%R \/ sumsq Rops l = 0%R) /\
+    (sumsq Rops (c_yload c) = 1%R \/ sumsq Rops (c_yload c) = 0%R).
+Proof. exact pobj_reachable_unit_norm. Qed.
+Print Assumptions C19_pobj_reachable_unit_norm.
+
+(* the two-fit clauses at the level of the ENTRY POINT (validation included; matrix and vector-valued Y): fit(X[p], Y[p]) is accepted
+   iff fit(X, Y) is, records the same shapes, means, loadings, Y loadings, coefficients and predicts identically, with consistently
+   re-ordered X and Y scores (commutative ring); fit(X + c, Y + d) likewise has the same components and predict(X_new + c) =
+   predict(X_new) + d (over R) *)
+Theorem C19_plsr_entry_perm : forall (F : Type) (Op : fops F), is_ring Op ->
+  forall (sqrtF : F -> F) (init : tensor F -> list (tensor F)) (ne_solve : list (list F) -> list F -> list F) (p : list nat) (n : nat),
+  Permutation p (seq 0 n) ->
+  forall (prm : pprm) (X Y : tensor F) (sx : list nat) (a : pattrs),
+  shape X = n :: sx -> (shape Y = [n] \/ exists m, shape Y = [n; m] /\ 0 < m) ->
+  plsr_fit_entry Op sqrtF init ne_solve prm X Y = FitOk a ->
+  exists a', plsr_fit_entry Op sqrtF init ne_solve prm (perm_samples Op p X) (perm_samples Op p Y) = FitOk a' /\
+    a_xshape a' = a_xshape a /\ a_yshape a' = a_yshape a /\
+    X_mean_ (a_fit a') = X_mean_ (a_fit a) /\ Y_mean_ (a_fit a') = Y_mean_ (a_fit a) /\
+    loadings (a_fit a') = loadings (a_fit a) /\
+    map (c_yload (F:=F)) (comps (a_fit a')) = map (c_yload (F:=F)) (comps (a_fit a)) /\
+    map (c_B (F:=F)) (comps (a_fit a')) = map (c_B (F:=F)) (comps (a_fit a)) /\
+    fitted_scores (a_fit a') = map (pick Op n p) (fitted_scores (a_fit a)) /\
+    map (c_yscore (F:=F)) (comps (a_fit a')) = map (pick Op n p) (map (c_yscore (F:=F)) (comps (a_fit a))) /\
+    forall q Xn, plsr_predict_entry Op q a' Xn = plsr_predict_entry Op q a Xn.
+Proof. exact @plsr_entry_perm. Qed.
+Print Assumptions C19_plsr_entry_perm.
+
+Theorem C19_plsr_entry_shift : forall (init : tensor R -> list (tensor R)) (ne_solve : list (list R) -> list R -> list R)
+  (prm : pprm) (X Y c d : tensor R) (n : nat) (sx : list nat) (a : pattrs),
+  shape X = n :: sx -> (shape Y = [n] \/ exists m, shape Y = [n; m]) -> 0 < n ->
+  plsr_fit_entry Rops sqrt init ne_solve prm X Y = FitOk a ->
+  exists a', plsr_fit_entry Rops sqrt init ne_solve prm (shift Rops X c) (shift Rops Y d) = FitOk a' /\
+    a_xshape a' = a_xshape a /\ a_yshape a' = a_yshape a /\
+    comps (a_fit a') = comps (a_fit a) /\ loadings (a_fit a') = loadings (a_fit a) /\
+    fitted_scores (a_fit a') = fitted_scores (a_fit a) /\
+    forall Xn i o, sshape Xn = sx -> i < nsamp Xn -> o < nth 1 (a_yshape a) 0 ->
+      tget Rops (fit_predict Rops (a_fit a') (shift Rops Xn c)) [i; o] =
+      (tget Rops (fit_predict Rops (a_fit a) Xn) [i; o] + tget Rops (y_offset Y d) [o])%R.
+Proof. exact plsr_entry_shift. Qed.
+Print Assumptions C19_plsr_entry_shift.
 
 (* fit(X, Y) then transform(X) on the object returns the fitted X scores (whatever the object went through before) *)
 Theorem C19_plsr_obj_fit_then_transform : forall (F : Type) (Op : fops F) (sqrtF : F -> F) (init : tensor F -> list (tensor F))
@@ -695,3 +750,13 @@ Proof.
   split; [eexists; split; [reflexivity|vm_compute; reflexivity]|].
   split; [eexists; reflexivity|]. split; vm_compute; reflexivity.
 Qed.
+
+(* entry-level permutation with a VECTOR target (Z instance): the permuted fit is accepted and has the same loadings *)
+Example C19_plsr_entry_perm_nonvacuous :
+  let X := mk [3; 2; 2] [4; -1; 0; 2; -3; 5; 1; 1; 2; 0; -2; -6]%Z in
+  let Y := mk [3] [1; -2; 4]%Z in
+  let init := fun _ : tensor Z => [mk [2] [1; 0]%Z; mk [2] [0; 1]%Z] in
+  let entry := plsr_fit_entry Zops Z.sqrt init (fun _ b => b) (mkPprm 1 2 0%Z) in
+  exists a a', entry X Y = FitOk a /\ entry (perm_samples Zops [2; 0; 1] X) (perm_samples Zops [2; 0; 1] Y) = FitOk a' /\
+    loadings (a_fit a') = loadings (a_fit a) /\ fitted_scores (a_fit a) <> [[0; 0; 0]%Z].
+Proof. cbv zeta. do 2 eexists. split; [reflexivity|]. split; [reflexivity|]. split; [vm_compute; reflexivity|vm_compute; discriminate]. Qed.
